@@ -80,14 +80,19 @@ def run(ctx):
         # per-opcode balance among the remaining budget
         ctx.rng.shuffle(rest)
         chosen = core + rest[:max(0, budget - len(core))]
-    susp_groups = []
+    susp_groups = []      # (keys, tuples, lookup): suspects of several classes share a module (<=100 rows)
+    dev_groups = []
+    flat = []
     for key, d in sorted(suspects.items()):
         ts = sorted(d.keys(), key=lambda t: (t[0], [str(x) for x in t[1]], t[2], t[3]))
         if len(ts) > 60 and not ctx.thorough:
             ts = ts[:20] + ctx.rng.sample(ts[20:], 40)
-        for i in range(0, len(ts), 100):
-            susp_groups.append((key, ts[i:i + 100], d))
-
+        flat += [(key, t, d[t]) for t in ts]
+        if key in ni.DEVIATION_KEYS:
+            dev_groups.append((key, ts[:100], d))
+    for i in range(0, len(flat), 100):
+        part = flat[i:i + 100]
+        susp_groups.append((sorted({k for k, _, _ in part}), [t for _, t, _ in part], part))
     # ---- 6. TLC: digit-wise bitwise evaluation for every bitwise tuple that goes to Apalache
     bit_tuples = []
     for t in chosen + [t for (_, ts, _) in susp_groups for t in ts]:
@@ -106,12 +111,12 @@ def run(ctx):
     chunks = [exprs[i:i + 100] for i in range(0, len(exprs), 100)]
     for i, ch in enumerate(chunks):
         jobs.append({"name": "NeoVMIntTab_T%03d" % i, "text": ni.apalache_module("NeoVMIntTab_T%03d" % i, ch), "kind": "conform"})
-    for i, (key, ts, d) in enumerate(susp_groups):
+    for i, (keys, ts, part) in enumerate(susp_groups):
         nm = "NeoVMIntTab_S%03d" % i
-        jobs.append({"name": nm, "text": ni.apalache_module(nm, [ni.row_expr(t, limb_res) for t in ts], negate=True), "kind": "suspect", "key": key, "ts": ts, "d": d})
-        if key in ni.DEVIATION_KEYS:
-            nm = "NeoVMIntTab_D%03d" % i
-            jobs.append({"name": nm, "text": ni.apalache_module(nm, [ni.row_expr(t, limb_res) for t in ts], deviation=True), "kind": "deviation", "key": key, "ts": ts, "d": d})
+        jobs.append({"name": nm, "text": ni.apalache_module(nm, [ni.row_expr(t, limb_res) for t in ts], negate=True), "kind": "suspect", "keys": keys, "part": part})
+    for i, (key, ts, d) in enumerate(dev_groups):
+        nm = "NeoVMIntTab_D%03d" % i
+        jobs.append({"name": nm, "text": ni.apalache_module(nm, [ni.row_expr(t, limb_res) for t in ts], deviation=True), "kind": "deviation", "key": key, "ts": ts, "d": d})
     ctx.log("Apalache: %d modules (%d conformance rows in %d chunks, %d suspect groups)" % (len(jobs), len(exprs), len(chunks), len(susp_groups)))
     res = ni.run_apalache_jobs(ctx, jobs, min(vf.NCPU, 10))
     discharged = 0
@@ -127,17 +132,18 @@ def run(ctx):
             else:
                 ctx.infra("apalache %s on %s" % (st, j["name"]))
         elif j["kind"] == "suspect":
-            if st == "ok":   # every row of the group is refuted by the specification -> genuine deviations of the real code
+            if st == "ok":   # every row of the module is refuted by the specification -> genuine deviations of the real code
                 discharged += 1
-                t0 = j["ts"][0]
-                row, rep = j["d"][t0]
-                ef, ev = ni.mirror(row["op"], row["arg"])
-                detail = "%s %s (%s, rep=%s): Go %s, specification %s; %d outcome(s) of this class refuted by Apalache" % (
-                    row["op"], [str(a) for a in row["arg"]], "/".join(row["cls"]), rep,
-                    "FAULT" if t0[2] else t0[3], "FAULT" if ef else ev, len(j["ts"]))
-                ctx.violation(j["key"], detail, {"rows": [strrow(j["d"][t][0]) for t in j["ts"][:20]], "rep": rep})
+                for key in j["keys"]:
+                    mine = [(t, rr) for (k, t, rr) in j["part"] if k == key]
+                    t0, (row, rep) = mine[0]
+                    ef, ev = ni.mirror(row["op"], row["arg"])
+                    detail = "%s %s (%s, rep=%s): Go %s, specification %s; %d outcome(s) of this class refuted by Apalache" % (
+                        row["op"], [str(a) for a in row["arg"]], "/".join(row["cls"]), rep,
+                        "FAULT" if t0[2] else t0[3], "FAULT" if ef else ev, len(suspects[key]))
+                    ctx.violation(key, detail, {"rows": [strrow(rr[0]) for (_, rr) in mine[:20]], "rep": rep})
             elif st == "violation":
-                ctx.infra("MODEL-DRIFT: python mirror disagrees with the specification on a row of %s (key %s)" % (j["name"], j["key"]))
+                ctx.infra("MODEL-DRIFT: python mirror disagrees with the specification on a row of %s (keys %s)" % (j["name"], j["keys"][:5]))
             else:
                 ctx.infra("apalache %s on %s" % (st, j["name"]))
         else:  # the named-deviation variant of the specification must explain these outcomes exactly
@@ -158,7 +164,7 @@ def run(ctx):
     return finish(ctx, {
         "rows_enumerated_by_tlc": sum(1 for r in rows if r["src"] == "tlc"), "rows_random": sum(1 for r in rows if r["src"] == "random"),
         "distinct_conforming_outcomes": len(conform), "suspect_classes": sorted(suspects.keys()),
-        "apalache_modules": len(jobs), "apalache_modules_discharged": discharged, "apalache_rows": len(exprs) + sum(len(ts) for (_, ts, _) in susp_groups),
+        "apalache_modules": len(jobs), "apalache_modules_discharged": discharged, "apalache_rows": len(exprs) + len(flat),
         "bitwise_rows_evaluated_by_tlc": len(bit_tuples), "noncanonical_results": noncanon,
         "apalache_cmd": cmd, "laws_states": laws.distinct,
     }, n_exec)
